@@ -47,6 +47,22 @@ EXTRA_TEXT = {
     "C17": " About 4 % of the cases run whole rescue-method pipelines and compare the cutoff the callers obtain (the value the rescue pass reports with) with the composed model and with an independent recomputation.",
 }
 
+# corrections after the independent audit (notes/props-audit.md) and after the fix commits landed: (pid, old, new),
+# applied to text and note; a pattern that no longer occurs is reported
+TEXT_PATCHES = [
+    ("C11", "For all precursor lists, sample numbers, minimum ratio counts, stabilisation on/off and any edge filter.",
+     "Stage-A statements hold for all precursor lists, sample numbers, minimum ratio counts, stabilisation on/off and any edge filter; the consistent-data recovery theorem (consistent_lfq) needs stabilisation off, a minimum ratio count >= 1 and at least two samples that are all linked — with stabilisation on and very unequal peptide counts the summed-intensity ratio enters by design and proportionality to the sample factors is not claimed."),
+    ("C11", "the check reports VIOLATION on /repo until they are applied", "both applied to /repo as fix: commits 0071b99 and b4e1557 (known_findings.json)"),
+    ("C12", "Open proposal (not applied, check follows the code): iBAQ peptide numbers are looked up under the default identifier rule",
+     "Found by this composition and repaired (fix: commit ed368a8): iBAQ peptide numbers were looked up under the default identifier rule"),
+]
+EXTRA_NOTE = {
+    "C12": " Hypothesis of conservation / intensity_recompute / tmt_recompute: every evidence file of the set has the SAME SILAC / TMT column layout (the code fixes num_silac_channels from the first row it sees; a label-free file followed by a SILAC file makes it add L/H values into other experiments' slots — the model is faithful to that, the theorems and the generator assume one layout, and the property speaks of 'optionally SILAC or TMT channels' for the set as a whole).",
+    "C13": " reread_same_ids_q_score assumes an output name that does not end in .csv: parse_mq_protein_groups_file switches to ',' for *.csv while the writer always writes tabs (recorded as an observation; the tool's documented output is proteinGroups.txt).",
+    "C18": " 'completes and writes a table' is proved as the verdict of the decision model (runCli) for matching input; the theorems about the composed cliRun are conditional on success (a run can still end in the degenerate no_ranked_groups failure when no group has a peptide, which the correspondence exercises).",
+    "C10": "",
+}
+
 NOT_YET = {}
 # properties whose check exists but is not claimed yet (e.g. waiting for a fix commit or a review)
 HOLD = set()
@@ -84,7 +100,18 @@ def main():
     for pid in ALL:
         if pid not in CLAIMED:
             continue
-        c = CLAIMED[pid]
+        c = dict(CLAIMED[pid])
+        for ppid, old, new in TEXT_PATCHES:
+            if ppid == pid:
+                if old in c["text"] or old in c["note"]:
+                    c["text"] = c["text"].replace(old, new)
+                    c["note"] = c["note"].replace(old, new)
+                else:
+                    print("note: text patch no longer applies for", pid, "-", old[:50])
+        c["note"] = c["note"] + EXTRA_NOTE.get(pid, "")
+        if "fixes/" in c["note"] or "fixes/" in c["text"]:
+            c["note"] += (" (Every repair named above under fixes/ has since been applied to /repo as a `fix:` commit — ids in "
+                          "known_findings.json; sentences about the unpatched / unrepaired / pinned tree describe the tree before those commits.)")
         checks.append(
             {
                 "property_id": pid,
